@@ -19,6 +19,12 @@ def run(ctx, w):
     ctx.not_decided = ["column arithmetic of where a character lands beyond the operands checked", "scroll contents on wrap (C06)"]
     charset_rules(ctx, w)
     print_rules(ctx, w, S, R)
+    # Y0: every printable code point reaches the print handler at all (Ground row of the transition table)
+    from rules import c03, tables
+    tb = tables.parser_tables(w)
+    c03.run_transition(ctx, w, tb, only_states=["Ground"], rule="Y0")
+    ctx.floor("Y0", 20, "Ground-state cells")
+    shared.stale_operands(ctx, w, S, R, "Y8", ["Print", "Rep"])
 
 
 def charset_rules(ctx, w):
